@@ -67,25 +67,69 @@ def _write_crate(d, name, mods, prelude, check_only):
     return spans
 
 
+_MACRO = {}
+
+
+def ensure_macro():
+    """(re)build the real proc-macro from /repo's working tree (guard off) through a tiny cargo crate and
+    return (path of libderive_ex-*.so, deps dir).  Batches are then compiled by rustc directly, so that
+    many of them can run in parallel without contending for cargo's target-dir lock."""
+    if 'so' in _MACRO:
+        return _MACRO['so'], _MACRO['deps']
+    import glob
+    d = os.path.join(L2, '_macro')
+    with R.Lock('l2-macro'):
+        os.makedirs(os.path.join(d, 'src'), exist_ok=True)
+        with open(os.path.join(d, 'Cargo.toml'), 'w') as f:
+            f.write(CARGO_TOML % 'l2macro')
+        shutil.copy('/repo/Cargo.lock', os.path.join(d, 'Cargo.lock'))
+        with open(os.path.join(d, 'src', 'main.rs'), 'w') as f:
+            f.write('#[derive_ex::derive_ex(Clone)] struct W(u8); fn main() { let _ = W(1).clone(); }\n')
+        p = subprocess.run(['timeout', '1500', 'cargo', 'build', '--offline', '--message-format=json',
+                            '--target-dir', L2_TARGET], cwd=d, env=ENV, stdout=subprocess.PIPE,
+                           stderr=subprocess.PIPE, text=True)
+        if p.returncode != 0:
+            raise RuntimeError('the real proc-macro does not build (guard off):\n' + p.stderr[-3000:])
+        so = None
+        for l in p.stdout.split('\n'):
+            if l.startswith('{') and '"compiler-artifact"' in l:
+                j = json.loads(l)
+                if j.get('target', {}).get('name') in ('derive_ex', 'derive-ex'):
+                    for fn in j.get('filenames', []):
+                        if fn.endswith('.so'):
+                            so = fn
+        if so is None:
+            c = sorted(glob.glob(os.path.join(L2_TARGET, 'debug', 'deps', 'libderive_ex-*.so')), key=os.path.getmtime)
+            so = c[-1]
+    _MACRO['so'], _MACRO['deps'] = so, os.path.join(L2_TARGET, 'debug', 'deps')
+    return so, _MACRO['deps']
+
+
 def _cargo(d, check_only, deny_warnings):
-    cmd = ['timeout', '1500', 'cargo', 'check' if check_only else 'build', '--offline',
-           '--message-format=json', '--target-dir', L2_TARGET]
-    env = dict(ENV)
+    so, deps = ensure_macro()
+    name = os.path.basename(d)
+    out = os.path.join(d, name)
+    cmd = ['timeout', '1500', 'rustc', '--edition=2021', '--crate-name', name.replace('-', '_'), '--crate-type', 'bin',
+           '--error-format=json', '--extern', 'derive_ex=' + so, '-L', 'dependency=' + deps,
+           '-C', 'debuginfo=0', '-C', 'opt-level=0', '-C', 'codegen-units=4']
+    if check_only:
+        cmd += ['--emit=metadata', '-o', out + '.rmeta']
+    else:
+        cmd += ['-o', out]
     if deny_warnings:
-        env['RUSTFLAGS'] = '-D warnings'
-    p = subprocess.run(cmd, cwd=d, env=env, stdout=subprocess.PIPE, stderr=subprocess.PIPE, text=True)
+        cmd += ['-D', 'warnings']
+    cmd.append(os.path.join(d, 'src', 'main.rs'))
+    p = subprocess.run(cmd, cwd=d, env=ENV, stdout=subprocess.PIPE, stderr=subprocess.PIPE, text=True)
     diags = []
-    for l in p.stdout.split('\n'):
+    for l in p.stderr.split('\n'):
         if not l.startswith('{'):
             continue
         try:
-            j = json.loads(l)
+            msg = json.loads(l)
         except ValueError:
             continue
-        if j.get('reason') == 'compiler-message':
-            msg = j['message']
-            if msg.get('level') in ('error', 'warning'):
-                diags.append(msg)
+        if msg.get('level') in ('error', 'warning') and msg.get('spans') is not None:
+            diags.append(msg)
     return p.returncode, diags, p.stderr
 
 
@@ -112,7 +156,7 @@ def compile_batch(name, mods, prelude='', check_only=False, deny_warnings=False,
     live = list(mods)
     for m in mods:
         m.compiled, m.diags = None, []
-    with R.Lock('l2-' + name):
+    if True:
         for _ in range(max_rounds):
             spans = _write_crate(d, name, live, prelude, check_only)
             rc, diags, stderr = _cargo(d, check_only, deny_warnings)
@@ -151,7 +195,7 @@ def compile_batch(name, mods, prelude='', check_only=False, deny_warnings=False,
             raise RuntimeError('batch %s did not converge' % name)
     if check_only or not live:
         return None
-    return os.path.join(L2_TARGET, 'debug', name)
+    return os.path.join(d, name)
 
 
 def run_exe(exe, timeout=600):
@@ -167,3 +211,13 @@ def run_exe(exe, timeout=600):
 
 def cleanup(name):
     shutil.rmtree(os.path.join(L2, name), ignore_errors=True)
+
+
+def compile_parallel(batches, **kw):
+    """batches: list of (name, mods); compiled concurrently (threads, one rustc each).
+    Returns {name: exe or None}"""
+    from concurrent.futures import ThreadPoolExecutor
+    ensure_macro()
+    with ThreadPoolExecutor(max_workers=R.NPROC) as ex:
+        futs = {name: ex.submit(compile_batch, name, mods, **kw) for name, mods in batches}
+        return {name: f.result() for name, f in futs.items()}
